@@ -28,6 +28,9 @@ structure DState where
   /-- after a batch of concurrent heartbeats the model has no single successor state: it follows the
       implementation's report (the monitor judges the batch) -/
   desync : Bool := false
+  /-- after a `scanrace` op (several hundred regions rebuilt, served set not reported) nothing is compared or
+      judged until the next reset -/
+  blind : Bool := false
   /-- `reset leveldb`: the region storage with its write batch (`M` = what is on disk) -/
   rs : Option RegionStorage := none
   /-- model side of the held heartbeats: (stream, region, saveKV, displaced regions) -/
@@ -141,6 +144,7 @@ def splitBar (ws : List String) : List (List String) :=
 
 def step (d : DState) (opLine : String) (impl : String) : DState × StepOut :=
   if impl = "skipped-after-panic" then (d, { model := impl })
+  else if d.blind && (words opLine).headD "" != "reset" then (d, { model := impl })
   else if impl = "panic" || (((words impl).headD "").splitOn ",").any (fun t => t = "panic") then
     -- the implementation panicked while handling this op: never acceptable on this path
     ({ d with desync := true }, { model := "no-panic", fails := [s!"sig=C06.heartbeat-path-panicked op={(words opLine).headD ""}"] })
@@ -157,6 +161,46 @@ def step (d : DState) (opLine : String) (impl : String) : DState × StepOut :=
       | [_, s] => parseRegionList (s.drop 2).toString
       | _ => []
     ({ model := c, mon := { S := S0, H := C06.record [] S0 } }, { model := s!"ok S={renderRegionList (served c)}" })
+  | "race" :: rounds :: k :: spec =>
+    match parseHeartbeatX spec with
+    | none => (d, { model := "bad-op" })
+    | some hb =>
+      let base := regionFromHeartbeat hb
+      let rmax := { base with version := base.version + natArg rounds * natArg k }
+      -- model: the highest version is what remains (the others are refused or overwritten by it); which of the
+      -- accepted ones wrote storage last is not determined: the model side stops comparing until the next reset
+      let (c', _) := heartbeat d.model rmax
+      let mfinal := match getRegionC c' rmax.id with
+        | some x => toString x.version
+        | none => "nil"
+      let mout := s!"bad=- final={mfinal} S={renderRegionList (served c')}"
+      match words impl with
+      | [b, _, s] =>
+        let back : Option (Nat × Nat) :=
+          match ((b.drop 4).toString).splitOn ">" with
+          | [x, y] => some (natArg x, natArg y)
+          | _ => none
+        let S' := parseRegionList (s.drop 2).toString
+        let fails := if decide (C06.RaceOk d.mon.H d.mon.S (norm rmax) back S') then [] else
+          let e0 := match back with
+            | some (x, y) => [s!"sig=C06.served-version-went-back-under-concurrent-heartbeats id={rmax.id} from={x} to={y}"]
+            | none => []
+          let e1 := explainServed d.mon (norm rmax) S'
+          let e2 := if S' != (if decide (C06.MustReject d.mon.S (norm rmax)) then d.mon.S else C07.put d.mon.S (norm rmax)) then
+              [s!"sig=C06.highest-version-not-served-after-concurrent-heartbeats id={rmax.id} expected-version={rmax.version}"] else []
+          if (e0 ++ e1 ++ e2).isEmpty then [s!"sig=C06.race-step-not-ok region={rmax.id}"] else e0 ++ e1 ++ e2
+        ({ d with model := c', desync := true, mon := { d.mon with H := C06.record d.mon.H S', S := S' } },
+          { model := if d.desync then impl else mout, fails := fails })
+      | _ => ({ d with desync := true }, { model := mout, fails := [s!"sig=C06.unexpected-answer answer={impl}"] })
+  | ["scanrace", _, _] =>
+    -- the answer excerpt the harness picked out (two neighbouring entries of one ScanRegions answer, or nothing)
+    let ex := if impl.startsWith "bad=" then (impl.drop 4).toString else "?"
+    let answer := if ex = "-" then [] else parseRegionList ex
+    let fails :=
+      if ex = "?" then [s!"sig=C06.unexpected-answer answer={impl}"]
+      else if decide (C06.ScanAnswerOk answer) then []
+      else [s!"sig=C06.scan-answer-overlaps regions={renderIds answer} answer-excerpt={ex}"]
+    ({ d with desync := true, blind := true }, { model := "bad=-", fails := fails })
   | ["sopen", _] => (d, { model := "ok" })
   | ["sclose", _] => (d, { model := "ok" })
   | "ssend" :: sender :: spec =>
